@@ -175,7 +175,7 @@ package ct
 //@ at v assert [verifies-the-sth-signature-over-exactly-those-bytes] v.data == ser.res0 && v.sig == sth.TreeHeadSignature && v.s == s
 
 //@ func RawLogEntryFromLeaf
-//@ props C12 C07 C06
+//@ props C12 C07 C06 C04
 //@ modifies nothing
 //@ site tls.Unmarshal#1 as ul
 //@ site tls.Unmarshal#2 as uc
